@@ -35,9 +35,10 @@ def grid_entry_case(c):
         warnings.simplefilter('ignore')
         ex = dict(extra)
         ex.setdefault('iota_slope', 0.07)
-        S = simdriver.Sim(comm, npts, nprocs, iota=0.8, extra=ex, pol_explicit=(op != 'pol-impl'))
+        S = simdriver.Sim(comm, npts, nprocs, iota=0.8, dt=1.5, extra=ex, pol_explicit=(op != 'pol-impl'))     # half step 0.75: no factor is 1
         f, phi = S.f, S.phi
         out = []
+        checks = {}
         if op == 'flux':
             f.setLayout('flux_surface')
             S.set_f(salt=seed)
@@ -49,21 +50,54 @@ def grid_entry_case(c):
             f.setLayout('v_parallel')
             S.set_f(salt=seed)
             S.set_phi('v_parallel_1d', salt=seed + 1, scale=4.0)
+            f0 = np.array(f.getAllData(), copy=True)
             S.vParAdv.gridStep(f, phi, S.parGrad, S.parGradVals, S.half)
             out.append(simdriver.block_info(f))
+            # what gridStep leaves in the caller's array is the parallel gradient itself (gridStepKeepGradient relies on it):
+            # compare with the gradient computed into a fresh array, and the step with line-by-line step() calls
+            L = f.getLayout(f.currentLayout)
+            fresh = np.empty_like(S.parGradVals)
+            ref = np.array(f0, copy=True)
+            zStart = int(L.starts[1])
+            for i, r in f.getCoords(0):
+                S.parGrad.parallel_gradient(np.real(phi.get2DSlice(i)), i, fresh[i])
+                for j in range(ref.shape[1]):
+                    for k in range(ref.shape[2]):
+                        S.vParAdv.step(ref[i, j, k], S.half, fresh[i, zStart + j, k], r)
+            checks['gradient_kept'] = bool(np.array_equal(fresh, S.parGradVals))
+            checks['gridStep_is_linewise_step'] = bool(np.array_equal(ref, f.getAllData()))
             S.vParAdv.gridStepKeepGradient(f, S.parGradVals, S.full)
+            for i, r in f.getCoords(0):
+                for j in range(ref.shape[1]):
+                    for k in range(ref.shape[2]):
+                        S.vParAdv.step(ref[i, j, k], S.full, fresh[i, zStart + j, k], r)
+            checks['gridStepKeepGradient_is_linewise_step'] = bool(np.array_equal(ref, f.getAllData()))
             out.append(simdriver.block_info(f))
         else:
             f.setLayout('poloidal')
             S.set_f(salt=seed)
             # implicit scheme: a small potential (the iteration is a contraction, see the C12 finding)
             S.set_phi('poloidal', salt=seed + 1, scale=(1.0 if op == 'pol' else 1e-3))
+            f0 = np.array(f.getAllData(), copy=True)
             S.polAdv.gridStep(f, phi, S.half)
             out.append(simdriver.block_info(f))
             S.polAdv.gridStep_SplinesUnchanged(f, S.full)
             out.append(simdriver.block_info(f))
+            # the scratch arrays of the operator are scratch: with every float work array of the object replaced by a fresh,
+            # separate one the same two calls must give the same bits (two stages sharing storage change the scheme)
+            after = np.array(f.getAllData(), copy=True)
+            shape2 = tuple(S.polAdv._nPoints)
+            renewed = 0
+            for name, val in list(vars(S.polAdv).items()):
+                if isinstance(val, np.ndarray) and val.dtype == np.float64 and tuple(val.shape) == shape2:
+                    setattr(S.polAdv, name, np.full(shape2, np.nan))
+                    renewed += 1
+            f.getAllData()[:] = f0
+            S.polAdv.gridStep(f, phi, S.half)
+            S.polAdv.gridStep_SplinesUnchanged(f, S.full)
+            checks['independent_of_scratch_storage'] = bool(renewed >= 4 and np.array_equal(after, f.getAllData()))
         return [{'dims': b['dims'], 'starts': b['starts'], 'shape': b['shape'], 'data': b['data'].tobytes().hex(),
-                 'dtype': str(b['data'].dtype)} for b in out]
+                 'dtype': str(b['data'].dtype), 'checks': checks} for b in out]
     R = MPI.run(nprocs[0] * nprocs[1], work, seed=seed, timeout=900)
     if R.outcome != 'ok':
         return ('fail', R.outcome, R.detail[:500])
@@ -103,6 +137,12 @@ def stage(chk, ops, extra=None):
         if not isinstance(r, tuple) or r[0] != 'ok':
             chk.violation('advection.%s.gridStep:run' % cls, '%s grid-level entry points on process grid %r: %r' % (cls, g, r), rep)
             continue
+        failed = sorted(set(k for res in r[1] for k, v in res[0].get('checks', {}).items() if not v))
+        if failed:
+            chk.violation('advection.%s:%s' % (cls, failed[0]), '%s on process grid %r (npts %r): %s does not hold (gridStep / gridStepKeepGradient are the line-by-line '
+                          'application of step() with the parallel gradient of the potential, which the array handed to gridStep holds afterwards; '
+                          'the result does not depend on which memory the scratch arrays of the operator occupy)' % (cls, g, npts, ', '.join(failed)),
+                          dict(rep, failed=failed))
         if g == (1, 1):
             ref[(op, tuple(npts))] = [_assemble(r[1], k, npts)[0] for k in range(len(entries) if op != 'flux' else 2)]
             continue
@@ -135,6 +175,9 @@ def replay_case(case):
     b = grid_entry_case((op, npts, tuple(g), seed, ex))
     if a[0] != 'ok' or b[0] != 'ok':
         return False, (a if a[0] != 'ok' else b)
+    failed = sorted(set(k for res in b[1] for k, v in res[0].get('checks', {}).items() if not v))
+    if failed:
+        return False, 'checks failed: %s' % ', '.join(failed)
     n = len(a[1][0])
     for k in range(n):
         if _assemble(a[1], k, npts)[0].tobytes() != _assemble(b[1], k, npts)[0].tobytes():
